@@ -119,3 +119,24 @@ Example C19_options_are_source_inhabited : forall r,
                                   DemuxerOptPacketSkipper None] in
   dstate_of nat nat d = init_dstate r 204 /\ Demuxer_optPacketsParser d = Some 2%nat /\ Demuxer_optPacketSkipper d = None.
 Proof. exact new_demuxer_example. Qed.
+
+(* ---- parseData's dispatch — the PacketsParser consulted first, its skip flag, what happens to the data it returns —
+   IS the source (the statement of C02_parse_data_is_source, quoted here because C19_parser_false / _true are about
+   exactly this function: a fallback that hands out the parser's data although it said skip = false changes
+   Gen/DemuxGen.v and this proof stops checking) ---- *)
+Require Import Proofs.DemuxGenEqParse.
+Theorem C19_parse_data_is_source : forall (W : Type) (get : W -> Z -> outcome (list Z * W)),
+  (forall w n, 0 <= n -> exists bs w', get w n = Done (bs, w') /\ Z.of_nat (length bs) = n) ->
+  forall (err_of : Z -> gerr), (forall c, code_x (err_of c) = norm c) ->
+  forall psi_parse to_data pes_parse ps gprs pm w, generic_errors gprs ->
+  match parseData W get (psi_m W err_of psi_parse) (to_data_m W to_data) (pes_m W err_of pes_parse)
+                  ps gprs (pm_mem pm) w with
+  | Done (ds, None, _) => parse_data (parsers_of psi_parse to_data pes_parse) (option_map unembed_parser gprs) pm ps = Ok ds
+  | Done (_, Some e, _) =>
+      exists c, parse_data (parsers_of psi_parse to_data pes_parse) (option_map unembed_parser gprs) pm ps = Err c /\
+                code_x e = norm c
+  | Panicked | OutOfFuel =>
+      parse_data (parsers_of psi_parse to_data pes_parse) (option_map unembed_parser gprs) pm ps = Panic
+  end.
+Proof. exact parse_data_is_generated. Qed.
+Print Assumptions C19_parse_data_is_source.
